@@ -50,6 +50,7 @@ type Engine struct {
 	realSpecMemo map[string]bool
 	usedAxioms   map[string]string
 	recMemo      map[string]bool
+	extVars      map[string]int
 	curFuel      int
 	usedLemmas   map[string]bool
 }
@@ -71,17 +72,20 @@ func printerFprint(w io.Writer, fset *token.FileSet, n ast.Node) error {
 	return printer.Fprint(w, fset, n)
 }
 
-func NewEngine(repo string) (*Engine, error) {
+func NewEngine(repo string) (*Engine, error) { return NewEngineOverlay(repo, nil) }
+
+// NewEngineOverlay loads the repository with in-memory replacements of some files (self-test canaries).
+func NewEngineOverlay(repo string, overlay map[string][]byte) (*Engine, error) {
 	e := &Engine{repo: repo, pkgs: map[string]*packages.Package{}, pkgByPath: map[string]*packages.Package{},
 		contracts: map[string]*FuncContract{}, decls: map[string]*ast.FuncDecl{}, declPkg: map[string]*packages.Package{},
 		globalSeen: map[string]bool{}, strs: map[string]Term{}, fls: map[string]Term{}, fns: map[string]Term{}, fnObjs: map[string]*types.Func{},
 		addrs: map[types.Object]Term{}, heapElemSort: map[string]string{}, usedSpecs: map[string]bool{}, notes: map[string][]string{},
 		trusted: map[string]bool{}, assumed: map[string]bool{}, globalInit: map[*types.Var]*globalInfo{}, globalConst: map[*types.Var]Term{},
-		specConsts: map[string]Term{}, realSpecMemo: map[string]bool{}, usedAxioms: map[string]string{}, recMemo: map[string]bool{}, usedLemmas: map[string]bool{}}
+		specConsts: map[string]Term{}, realSpecMemo: map[string]bool{}, usedAxioms: map[string]string{}, recMemo: map[string]bool{}, extVars: map[string]int{}, usedLemmas: map[string]bool{}}
 	e.fset = token.NewFileSet()
 	cfg := &packages.Config{
 		Mode: packages.NeedName | packages.NeedFiles | packages.NeedSyntax | packages.NeedTypes | packages.NeedTypesInfo | packages.NeedImports | packages.NeedDeps | packages.NeedModule,
-		Dir:  repo, Fset: e.fset, BuildFlags: []string{"-tags=verif"},
+		Dir:  repo, Fset: e.fset, BuildFlags: []string{"-tags=verif"}, Overlay: overlay,
 		Env: append(os.Environ(), "GOFLAGS=-mod=mod", "GOPROXY=off", "GOSUMDB=off", "GOTOOLCHAIN=local"),
 	}
 	pkgs, err := packages.Load(cfg, "./...")
@@ -385,6 +389,19 @@ func (e *Engine) globalVar(x *Exec, st *State, o *types.Var) Value {
 	}
 	// find initialiser
 	p := e.pkgByPath[o.Pkg().Path()]
+	if p == nil {
+		// variable of a package outside the repository (io.EOF, io.ErrUnexpectedEOF, crypto/rand.Reader, os.Stderr ...):
+		// an opaque non-nil constant, distinct per variable
+		name := "ext_" + symSan.ReplaceAllString(o.Pkg().Path()+"_"+o.Name(), "_")
+		if _, ok := e.extVars[name]; !ok {
+			e.extVars[name] = len(e.extVars) + 1
+			e.declareGlobal(fmt.Sprintf("(declare-fun %s () Int)", name))
+			e.declareGlobal(fmt.Sprintf("(assert (= %s %d))", name, 2000000+len(e.extVars)))
+		}
+		v := OpaqueV{T: Term{name, SInt}, Typ: o.Type()}
+		st.vars[o] = v
+		return v
+	}
 	var initExpr ast.Expr
 	if p != nil {
 		for _, iz := range p.TypesInfo.InitOrder {
